@@ -39,7 +39,7 @@ impl Property for C02 {
     fn rule(&self) -> String {
         "differential: each generated FROST run (suite, n, t, identifier style, key source, signer subset, message, shares, the 32+32 random \
          bytes every commit drew from the recorded tape) is recomputed by an independent RFC 9591 / BIP-340 implementation and compared byte \
-         for byte (nonces, commitments, commitment list, binding-factor inputs, binding factors, group commitment, challenge, interpolation \
+         for byte (nonces - from commit() or from pair j of a preprocess() batch -, commitments, commitment list, binding-factor inputs, binding factors, group commitment, challenge, interpolation \
          coefficients, shares, signature); plus the exhaustive u16 identifier-encoding sweep and single-signer interop in both directions. \
          non-trivial = outside the two vector shapes: identifier above 65535 or derived, or >= 4 signers, or empty/multi-block message, or \
          (n,t) != (3,2); distinct = distinct (suite, n, t, id style, |S|, message class, key source, key/commitment parity) tuples"
@@ -96,6 +96,7 @@ impl Property for C02 {
             ("single:lib-signs".into(), m),
             ("single:ref-signs".into(), m),
             ("ids>65535".into(), m),
+            ("nonces:preprocess-pair>0".into(), m),
             ("|S|>=4".into(), m),
             ("tr:key-odd".into(), 3),
             ("tr:R-odd".into(), 3),
@@ -250,12 +251,29 @@ fn frost_run<C: Suite>(shape: Shape, ids: IdSpec, source: KeySource, subset: Sub
     for (k, id) in signers.iter().enumerate() {
         let spec = TapeSpec::Random(seed ^ (0xc02_000 + k as u64).wrapping_mul(0x9e37_79b9_7f4a_7c15));
         let mut tape = Tape::new(spec);
-        let (n, c) = frost::round1::commit(keys.kps[id].signing_share(), &mut tape);
+        // every other signer takes its nonces from a preprocessed batch (pair j of 2..4): pair j is what commit() would
+        // return at that point of the same random stream, i.e. it draws bytes [64j, 64j+64)
+        let (n, c, j) = if (k + (seed as usize & 1)) % 2 == 1 {
+            let num = 2 + ((seed >> 8) as usize + k) % 3;
+            let j = ((seed >> 16) as usize + k) % num;
+            let (mut ns, mut cs) = frost::round1::preprocess(num as u8, keys.kps[id].signing_share(), &mut tape);
+            if ns.len() != num || cs.len() != num {
+                return ctx.fail("C02/preprocess-count", format!("preprocess({num}) returned {} nonces / {} commitments", ns.len(), cs.len()));
+            }
+            ctx.label("nonces:preprocess");
+            if j > 0 {
+                ctx.label("nonces:preprocess-pair>0");
+            }
+            (ns.swap_remove(j), cs.swap_remove(j), j as u64)
+        } else {
+            let (n, c) = frost::round1::commit(keys.kps[id].signing_share(), &mut tape);
+            (n, c, 0)
+        };
         req_signers.push(json!({
             "id": hex::encode(id.serialize()),
             "share": hex::encode(keys.kps[id].signing_share().serialize()),
-            "hr": hex::encode(tape.peek(0, 32)),
-            "br": hex::encode(tape.peek(32, 32)),
+            "hr": hex::encode(tape.peek(64 * j, 32)),
+            "br": hex::encode(tape.peek(64 * j + 32, 32)),
         }));
         nonces.insert(*id, n);
         comms.insert(*id, c);
